@@ -206,7 +206,7 @@ def q_sweep(tier, K=2):
 @prop("C07", ["observation list bound K per query (stated in bounds); per-frame capacity crossed by K=29 at MTU 576 (capacity 27) and by the small-MTU model query (MTU 100, capacity 3, K=5) whose MTU lies outside the property's range but exercises the same code",
               "Query/Probe issued in any state; a Query is answered regardless of its sender (C05 leaves strangers' commands unconstrained)"])
 def c07(tier, seed):
-    qs = [q_query(tier, 3), q_probe(tier, 3), q_reset(tier, 3),
+    qs = [q_query(tier, 3), q_probe(tier, 3), q_reset(tier, 3), q_probe_room(),
           q_query(tier, 5, frame_n=100, name="query_smallmtu")] + q_query_boundary(tier)
     if tier == "thorough":
         qs += [q_query(tier, 29), q_probe(tier, 8), q_query(tier, 3, frame_n=1500), q_query(tier, 3, frame_n=640, mtu_min=576, name="query_symmtu"),
@@ -465,6 +465,12 @@ def c18(tier, seed):
                     bounds={"constructor": "symbolic choice of init_automata_mapping / enumeration / session / session_table_create", "allocations": "each of the first 8 may fail"},
                     desc="automata constructors under failing allocation: NULL or fully initialised, no dereference of a missing allocation, no leak"))
     return qs
+
+
+def q_probe_room(K=2):
+    return blkq("blk_probe_room", "h_probe_room", live=["parseProbe"], K=K, unwind=K + 4, no_std_checks=True,
+                bounds={"state": "observation counter at 299 (stands for 299 recorded observations), list prefix of 0..%d nodes" % K},
+                desc="the memory cap leaves room for the 300 observations of the property's range")
 
 
 def q_probe_cap(K=2):
